@@ -153,8 +153,19 @@ def ordered_alternation(prop, name, pat, mode="match"):
     short = name.split(".")[-1]
     import re._constants as C
 
-    def simple(alt):
-        return all(op in (C.LITERAL, C.IN, C.CATEGORY, C.NOT_LITERAL) for op, _ in alt)
+    def simple(alt, top=True):
+        # keyword-like alternatives: they start with a literal character and consist of characters, classes and repetitions of those (e.g. `block\s*data`);
+        # separators such as `\s+ | \s*::\s*` are not keywords (whichever way they match, no capture group differs)
+        alt = list(alt)
+        if top and (not alt or alt[0][0] != C.LITERAL):
+            return False
+        for op, av in alt:
+            if op in (C.LITERAL, C.IN, C.CATEGORY, C.NOT_LITERAL):
+                continue
+            if op in (C.MAX_REPEAT, C.MIN_REPEAT) and simple(list(av[2]), top=False):
+                continue
+            return False
+        return True
     for bi, av in enumerate(branches(items)):
         alts = av[1]
         for i in range(len(alts)):
